@@ -7,11 +7,11 @@ NODE_TB = COMMON_TB + [
 
 CFG = {
     "props": "Props/C01.v",
-    "corr": ["Corr/NodeCorr.v", "Corr/HttpWaitCorr.v", "Corr/SyncCorr.v", "Corr/ServeCorr.v", "Corr/BootstrapCorr.v", "Corr/StreamCorr.v"],
-    "engines": [("httpwait", []), ("serve", []), ("bootstrap", []), ("sync", []), ("node", []), ("stream", [])],
+    "corr": ["Corr/NodeCorr.v", "Corr/HttpWaitCorr.v", "Corr/SyncCorr.v", "Corr/ServeCorr.v", "Corr/BootstrapCorr.v", "Corr/StreamCorr.v", "Corr/RobustCorr.v"],
+    "engines": [("httpwait", []), ("serve", []), ("bootstrap", []), ("sync", []), ("node", []), ("stream", []), ("robust", [])],
     "axioms": [],
     "trusted": NODE_TB + ["hypothesis vrec_unchained (unchained digests do not contain the previous signature: crypto/schemes.go DigestBeacon) is a Section hypothesis visible in the theorem statements"],
     "assumptions": ["pairing arithmetic, Lagrange interpolation in Recover and SHA-256 are not modelled (oracles)", "serving side: PublicRand's exact-round rule is modelled in Model/Serve.v; gRPC/HTTP marshalling is not modelled"],
-    "level_text": "Theorems C01_store / C01_chain_stays_valid hold for EVERY list of events a node can see (partials from anyone with any bytes, sync streams with any content, ticks, restarts, transitions) and every instance of the cryptographic oracles: each beacon the node writes verifies for exactly its round and previous signature; C01_serve_exact / C01_served_verifies: a successful answer for round r is the stored beacon of round r and verifies; C01_randomness: the published randomness is the hash of the carried signature. The model is the node-local state machine Model/Node.v, compared on every run with a real beacon.Handler on random scenarios including forged partials and sync, with an independent monitor re-verifying every Put.",
+    "level_text": "Theorems C01_store / C01_chain_stays_valid hold for EVERY list of events a node can see (partials from anyone with any bytes, sync streams with any content, ticks, restarts, transitions) and every instance of the cryptographic oracles: each beacon the node writes verifies for exactly its round and previous signature; C01_serve_exact / C01_served_verifies: a successful answer for round r is the stored beacon of round r and verifies; C01_randomness: the published randomness is the hash of the carried signature. The model is the node-local state machine Model/Node.v, compared on every run with a real beacon.Handler on random scenarios including forged partials and sync, with an independent monitor re-verifying every Put. The robust engine's child process adds the stale-head interleaving on the real BeaconProcess.PublicRand (round r stored between the request's reading of the head and the registration of its callback, chosen through a wrapper of the raw store): a successful answer to a request for round r must contain round r (class C01-answer-for-another-round).",
     "level_note": "Kernel-checked, no axioms. Trusts the oracle abstraction of BLS (validated by the correspondence with real signatures over 2 schemes quick / 5 thorough), the harness, and the quiescent-step granularity; transport layers are not modelled.",
 }
